@@ -1,8 +1,8 @@
 (* C16: Givens rotations, Hessenberg QR building blocks and triangular solves. *)
-From Coq Require Import Reals Lra Arith Lia ZArith QArith Qcanon Field.
+From Coq Require Import Reals Lra Arith Lia ZArith QArith Qcanon Field List.
 From QV Require Import CRing Sums Quat Mat QMat FOps FOpsR.
 From QVM Require Import Givens TriSolve LUexec TriExec.
-From QVT Require Import GivensThm TriSolveThm.
+From QVT Require Import GivensThm TriSolveThm Reflector HouseholderR HessQRThm.
 Close Scope Qc_scope. Close Scope Q_scope. Close Scope R_scope. Open Scope nat_scope.
 
 (* the generated rotation is unitary (G^H G = I and G G^H = I) and maps (x1, x2) to (||x||, 0),
@@ -14,6 +14,16 @@ Proof. exact (ggivens_is_rotation eps x1 x2). Qed.
 Theorem C16_ggivens_degenerate_is_identity (eps : R) (x1 x2 : fq ROps) :
   (sqrt (NR x1 + NR x2) <= eps)%R -> ggivens ROps eps x1 x2 = (fq1, fq0, fq0, fq1).
 Proof. exact (ggivens_degenerate eps x1 x2). Qed.
+
+(* the whole sweep of Hess_QR_ggivens (before the final phase normalisation) on an upper Hessenberg m x n matrix
+   (m - 1 <= n, e.g. the (k+1) x k matrices of Q-GMRES) on which no degenerate pair (norm <= eps) is met:
+   W is unitary, W R = H and R is upper triangular - every size, every entry *)
+Theorem C16_hessenberg_sweep (eps : R) (m n : nat) (H : fmat ROps) : (0 <= eps)%R -> 1 <= m -> m - 1 <= n ->
+  (forall i c, i < m -> c < n -> c + 1 < i -> H i c = fq0) ->
+  sweep_nondeg eps m n (seq 0 (m - 1)) feye (fretab m n H) ->
+  let '(W, Rm) := sweep ROps eps m n (seq 0 (m - 1)) feye (fretab m n H) in
+  unitary m (tom W) /\ meq m n (qmm m (tom W) (tom Rm)) (tom H) /\ (forall i c, i < m -> c < n -> c < i -> Rm i c = fq0).
+Proof. intros He Hm Hmn Hh Hnd. exact (hess_sweep_correct eps m n (tom H) He H Hm Hmn Hh (fun i j _ _ => eq_refl) Hnd). Qed.
 
 Section Tri.
 Variable C : CRing.
@@ -62,3 +72,4 @@ Print Assumptions C16_forward_row_defect.
 Print Assumptions C16_backward_row_defect.
 Print Assumptions C16_backward_solves.
 Print Assumptions C16_regularised_inverse.
+Print Assumptions C16_hessenberg_sweep.
